@@ -16,6 +16,9 @@ def harnesses(tier, findings):
     hs.append(inst(2, 2, 1, 1, 1, excl=excl))
     hs.append(inst(2, 2, 0, 0, 1, excl=excl))
     hs.append(inst(2, 2, 0, 1, 0, excl=excl))
+    # the acquisition finishes on its own, the client polls the state, then stops / aborts
+    hs.append(inst(2, 2, 1, 0, 0, excl=excl, poll=True))
+    hs.append(inst(2, 2, 1, 1, 3, excl=excl, poll=True))
     if tier == "thorough":
         for cl in (0, 2):
             hs.append(inst(2, 2, 1, 1, cl, excl=excl, timeout=3000))
